@@ -5,6 +5,7 @@ CONSTANTS
   PointMeta = FALSE
   Gs = {1, 2, 3}
   IdSet = {1, 2}
+  WithReads = FALSE
   Vals = {1, 2}
 INVARIANTS Linearizable Consistent
 CHECK_DEADLOCK FALSE
